@@ -156,6 +156,8 @@ func extractC15(f *facts) {
 	scOutside := -1
 	regexpLit := ""
 	sharesSlices := false
+	copiesSlices := false
+	peekSkips := false
 	if fd := funcDecl(file, "", "NewHTTPTargeter"); fd != nil {
 		if lit := returnedFuncLit(fd); lit != nil && len(lit.Body.List) >= 2 {
 			if es, ok := lit.Body.List[0].(*ast.ExprStmt); ok {
@@ -196,15 +198,84 @@ func extractC15(f *facts) {
 						if id, ok := as.Rhs[0].(*ast.Ident); ok && id.Name == val.Name {
 							sharesSlices = true
 						}
+						// append(<nil or empty slice>, vs...)
+						if ce, ok := as.Rhs[0].(*ast.CallExpr); ok && ce.Ellipsis != token.NoPos && len(ce.Args) == 2 {
+							if fn, ok := ce.Fun.(*ast.Ident); ok && fn.Name == "append" {
+								if id, ok := ce.Args[1].(*ast.Ident); ok && id.Name == val.Name {
+									switch a0 := ce.Args[0].(type) {
+									case *ast.CallExpr: // []string(nil)
+										if len(a0.Args) == 1 {
+											if n, ok := a0.Args[0].(*ast.Ident); ok && n.Name == "nil" {
+												copiesSlices = true
+											}
+										}
+									case *ast.CompositeLit: // []string{}
+										if len(a0.Elts) == 0 {
+											copiesSlices = true
+										}
+									}
+								}
+							}
+						}
 					}
 				}
 				return true
 			})
+			// line = TrimSpace(sc.Peek()); for HasPrefix(line, "#") { line = TrimSpace(sc.Peek()) }
+			// as consecutive statements of the closure body, before the header loop
+			isPeekAssign := func(st ast.Stmt) (string, bool) {
+				as, ok := st.(*ast.AssignStmt)
+				if !ok || len(as.Lhs) != 1 || len(as.Rhs) != 1 {
+					return "", false
+				}
+				lhs, ok := as.Lhs[0].(*ast.Ident)
+				if !ok {
+					return "", false
+				}
+				found := false
+				ast.Inspect(as.Rhs[0], func(n ast.Node) bool {
+					if ce, ok := n.(*ast.CallExpr); ok {
+						if x, ok := methodCallOn(ce, "Peek"); ok && x == sc {
+							found = true
+						}
+					}
+					return true
+				})
+				return lhs.Name, found
+			}
+			for i := 0; i+1 < len(lit.Body.List); i++ {
+				name, ok := isPeekAssign(lit.Body.List[i])
+				if !ok {
+					continue
+				}
+				fs, ok := lit.Body.List[i+1].(*ast.ForStmt)
+				if !ok || fs.Init != nil || fs.Post != nil || fs.Cond == nil || len(fs.Body.List) != 1 {
+					continue
+				}
+				ce, ok := fs.Cond.(*ast.CallExpr)
+				if !ok || len(ce.Args) != 2 {
+					continue
+				}
+				se, ok := ce.Fun.(*ast.SelectorExpr)
+				if !ok || se.Sel.Name != "HasPrefix" {
+					continue
+				}
+				a0, ok0 := ce.Args[0].(*ast.Ident)
+				a1, ok1 := ce.Args[1].(*ast.BasicLit)
+				if !ok0 || !ok1 || a0.Name != name || a1.Value != "\"#\"" {
+					continue
+				}
+				if n2, ok := isPeekAssign(fs.Body.List[0]); ok && n2 == name {
+					peekSkips = true
+				}
+			}
 		}
 	}
 	f.def("c15_http_lock_then_defer_unlock_first", "Bool", leanBool(lockFirst))
 	f.def("c15_http_scanner_uses_outside_closure", "Int", strconv.Itoa(scOutside))
 	f.def("c14_http_merge_assigns_default_slices", "Bool", leanBool(sharesSlices))
+	f.def("c14_http_merge_copies_default_slices", "Bool", leanBool(copiesSlices))
+	f.def("c14_http_peek_skips_comments", "Bool", leanBool(peekSkips))
 
 	// ---- the method regexp
 	if file != nil {
